@@ -57,7 +57,7 @@ type PathSample struct {
 	PathNo   int               `json:"path"`
 	End      string            `json:"end"`
 	Events   int               `json:"decisions"`
-	Model    map[string]uint64 `json:"assignment,omitempty"`
+	Model    map[string]uint64 `json:"assignment"` // {} for a path without nondeterministic values: it is replayed natively too
 	Observed []string          `json:"observed,omitempty"`
 	Trace    []string          `json:"trace,omitempty"` // rt.Observe values rendered under the assignment (compared with the native run)
 }
@@ -104,25 +104,25 @@ type Exec struct {
 
 	baseLevel int
 	stack     []pending
-	facts     map[int32]bool // conditions already decided on this path (by term id)
-	known     map[int32]uint64 // terms concretised on this path
+	facts     map[int32]bool    // conditions already decided on this path (by term id)
+	known     map[int32]uint64  // terms concretised on this path
 	doms      map[int32]*domain // finite-domain filter: feasible values of small single variables
 	multi     map[int32]bool    // variables that occur in a multi-variable constraint of this path
 	sizes     map[int32]int
-	pc        []*Term        // asserted conditions of the current path
+	pc        []*Term // asserted conditions of the current path
 
-	stats      Stats
-	violations []Violation
-	perLabel   map[string]int
-	samples    []PathSample
-	notes      map[string]int
-	exclPreds  map[string][][]Pred // label -> known-finding predicates (conjunctions), negated in violation queries
+	stats           Stats
+	violations      []Violation
+	perLabel        map[string]int
+	samples         []PathSample
+	notes           map[string]int
+	exclPreds       map[string][][]Pred // label -> known-finding predicates (conjunctions), negated in violation queries
 	maxViolPerLabel int
-	deadline   time.Time
-	maxPaths   int
-	truncated  bool
-	seed       uint64
-	crossSolver string
+	deadline        time.Time
+	maxPaths        int
+	truncated       bool
+	seed            uint64
+	crossSolver     string
 }
 
 func NewExec(ts *TermStore, solver *Solver, params map[string]int64) *Exec {
@@ -512,20 +512,20 @@ func (ex *Exec) Reach(label string) { ex.stats.Reached[label]++ }
 // ---- DFS driver ----
 
 type JobResult struct {
-	Harness    string            `json:"harness"`
-	Params     map[string]int64  `json:"params"`
-	Stats      Stats             `json:"stats"`
-	Violations []Violation       `json:"violations"`
-	Samples    []PathSample      `json:"samples"`
-	Notes      map[string]int    `json:"notes"`
-	Functions  map[string]int64  `json:"functions_encoded"`
-	SolverSec  float64           `json:"solver_s"`
-	Queries    int               `json:"solver_queries"`
-	OneShot    int               `json:"oneshot_queries"`
-	WallSec    float64           `json:"wall_s"`
-	Truncated  bool              `json:"truncated"`
-	Error      string            `json:"error,omitempty"`
-	Vars       []string          `json:"vars,omitempty"`
+	Harness    string           `json:"harness"`
+	Params     map[string]int64 `json:"params"`
+	Stats      Stats            `json:"stats"`
+	Violations []Violation      `json:"violations"`
+	Samples    []PathSample     `json:"samples"`
+	Notes      map[string]int   `json:"notes"`
+	Functions  map[string]int64 `json:"functions_encoded"`
+	SolverSec  float64          `json:"solver_s"`
+	Queries    int              `json:"solver_queries"`
+	OneShot    int              `json:"oneshot_queries"`
+	WallSec    float64          `json:"wall_s"`
+	Truncated  bool             `json:"truncated"`
+	Error      string           `json:"error,omitempty"`
+	Vars       []string         `json:"vars,omitempty"`
 }
 
 func (ex *Exec) Explore(run func()) {
@@ -609,9 +609,18 @@ func (ex *Exec) runPath(p pending, run func()) {
 		if end.detail != "" {
 			s.End = end.reason + ": " + end.detail
 		}
+		if ex.model == nil && end.reason == "ok" {
+			func() {
+				defer func() { recover() }()
+				ex.ensureModel()
+			}()
+		}
 		if ex.model != nil {
 			dm := ex.diversify(ex.model)
 			s.Model = ex.modelNamed(dm)
+			if s.Model == nil {
+				s.Model = map[string]uint64{}
+			}
 			if ex.render != nil {
 				for _, o := range ex.obsVals {
 					s.Trace = append(s.Trace, o.label+"="+ex.render(o.v, dm))
